@@ -622,11 +622,15 @@ class TaskScenario(ScenarioData):
         lowerLimit = self.project.dateToIdx(self.project["start"])
         upperLimit = self.project.dateToIdx(self.project["end"])
 
+        # For ALAP: seconds at the end of the first booked slot that belong to tasks scheduled earlier
+        first_booked_used_before = 0.0
+
         previous_effort = self.doneEffort
         while self.scheduleSlot():
             # Track first booked slot for ALAP (when effort actually increases)
             if not forward and first_booked_slot is None and self.doneEffort > previous_effort:
                 first_booked_slot = self.currentSlotIdx
+                first_booked_used_before = self._slotUsedBefore
             previous_effort = self.doneEffort
 
             self.currentSlotIdx += delta
@@ -638,6 +642,7 @@ class TaskScenario(ScenarioData):
         # first booked slot is recorded
         if not forward and first_booked_slot is None and self.doneEffort > previous_effort:
             first_booked_slot = self.currentSlotIdx
+            first_booked_used_before = self._slotUsedBefore
 
         # Set start/end dates based on scheduling direction
         if forward:
@@ -663,6 +668,12 @@ class TaskScenario(ScenarioData):
             # Use first_booked_slot if we actually booked something, else fall back to start_slot_idx
             end_slot = first_booked_slot if first_booked_slot is not None else start_slot_idx
             actual_end = self.project.idxToDate(end_slot + 1)
+            if first_booked_used_before > 0:
+                # Backward tasks fill a shared slot from its end: this task ends where the
+                # part taken by the tasks scheduled before it begins
+                from datetime import timedelta
+
+                actual_end = actual_end - timedelta(seconds=round(first_booked_used_before))
             # For effort-based tasks, always use the calculated end (when work actually completes)
             # even if an explicit end constraint was specified (that's just the deadline, not the actual end)
             effort = self.property.get("effort", self.scenarioIdx) or 0
